@@ -145,7 +145,7 @@ PairCase(a, b) ==
      \* geo::Convert / TryConvert (scalar type changes): the harness multiplies a and b by conv_unit[1] * conv_unit[2] = 1 400 000 000 in i64;
      \* the result fits i32 (max 2 147 483 647) exactly when every |coordinate| * 700 000 000 <= 1 073 741 823 (kept inside TLC's 32-bit ints)
      conv_unit |-> <<700000000, 2>>,
-     conv_fits |-> \A p \in {a, b} : \A j \in 1 .. 2 : Abs(p[j]) * 700000000 <= 1073741823,
+     conv_fits |-> \A p \in {a, b} : \A j \in 1 .. 2 : Abs(p[j]) <= 3 /\ Abs(p[j]) * 700000000 <= 1073741823,   \* first conjunct: the product must stay inside TLC's ints
      deg |-> <<DegBr(a[1]), DegBr(a[2])>>, rad |-> <<RadBr(a[1]), RadBr(a[2])>>,
      \* Line
      dx |-> Dx(a, b), dy |-> Dy(a, b), delta |-> Sub(b, a), vertical |-> v, dysign |-> Sign(Dy(a, b)),
